@@ -75,9 +75,10 @@ func c37Upload(t *testing.T, st storage.Putter, data []byte) boson.Address {
 // `branchSize *= branching` loop overflows to 0): an intermediate chunk (span >
 // payload length) with fewer than one full reference, or with a positive span
 // above ChunkSize*Branches^3. These make GetChunkHashes spin forever - a hang, not a
-// panic; there is no wall-clock oracle, so they are excluded (unless
-// VERIF_C37_DEEP=1, used with proposed_fix_3.patch) and reported in FINDINGS.md
-// as an observation.
+// panic; there is no wall-clock oracle, so they are excluded and reported in
+// FINDINGS.md as an observation. (A second mechanism with the same effect:
+// file.JoinReadAll loops span/ChunkSize times while joiner.Read returns 0 bytes
+// and no error for a root whose span lies about the size of its children.)
 func c37Hangs(span uint64, payloadLen int) bool {
 	s := int64(span)
 	if s <= int64(payloadLen) {
@@ -103,7 +104,7 @@ func c37Cases(t *testing.T) []c37Pyramid {
 	// --- crafted plain-file roots
 	for _, span := range []uint64{0, 1, 3, 4, 31, 32, 33, 64, C, C + 1, 2 * C, C * uint64(boson.Branches), C*uint64(boson.Branches) + 1, 1 << 31, 1 << 32, 1<<63 - 1, 1 << 63, ^uint64(0)} {
 		for _, pl := range []int{0, 1, 3, 31, 32, 33, 63, 64, 65, 96} {
-			if c37Hangs(span, pl) && mc.EnvInt("VERIF_C37_DEEP", 0) == 0 {
+			if c37Hangs(span, pl) {
 				continue
 			}
 			payload := c37Pat(pl, 3)
@@ -117,7 +118,7 @@ func c37Cases(t *testing.T) []c37Pyramid {
 	// two-level tree with a malformed intermediate chunk
 	for _, ipl := range []int{0, 1, 31, 33, 64, 65} {
 		for _, ispan := range []uint64{0, 5, C, C + 1, 2 * C, 1 << 62, ^uint64(0)} {
-			if c37Hangs(ispan, ipl) && mc.EnvInt("VERIF_C37_DEEP", 0) == 0 {
+			if c37Hangs(ispan, ipl) {
 				continue
 			}
 			// A malformed chunk *below* the root is read by an errgroup goroutine of
@@ -185,7 +186,7 @@ func c37Cases(t *testing.T) []c37Pyramid {
 		mutRoot(fmt.Sprintf("manifest-root-prefix-%d-of-%d(span=len)", k, len(node)), uint64(k), node[:k])
 	}
 	for _, k := range []int{0, 1, 31, 32, 63, 64, 65, len(node) / 2, len(node) - 1} {
-		if c37Hangs(uint64(len(node)), k) && mc.EnvInt("VERIF_C37_DEEP", 0) == 0 {
+		if c37Hangs(uint64(len(node)), k) {
 			continue
 		}
 		mutRoot(fmt.Sprintf("manifest-root-prefix-%d(span kept)", k), uint64(len(node)), node[:k])
